@@ -35,6 +35,21 @@ for name, (prop, change, needs) in D.items():
         continue
     conf = open(os.path.join(d, 'confirm.log')).read() if os.path.exists(os.path.join(d, 'confirm.log')) else ''
     chk = open(os.path.join(d, 'checks.log')).read() if os.path.exists(os.path.join(d, 'checks.log')) else ''
+    def parse(chk):
+        verdicts = {}
+        cur = None
+        for l in chk.split('\n'):
+            m = re.match(r'== (C\d+) rc=(\d+)', l)
+            if m:
+                cur = m.group(1); verdicts[cur] = {'rc': int(m.group(2)), 'concrete_input': False, 'what': []}
+            elif cur and 'no-failing-input-found' in l:
+                verdicts[cur]['no_failing_input_found'] = True
+            elif cur and l.strip().startswith('what:') and l.strip() != 'what:':
+                verdicts[cur]['concrete_input'] = True
+                if len(verdicts[cur]['what']) < 2:
+                    verdicts[cur]['what'].append(l.strip()[5:].strip()[:300])
+        return verdicts
+    after = parse(open(os.path.join(d, 'checks_after_strengthening.log')).read()) if os.path.exists(os.path.join(d, 'checks_after_strengthening.log')) else None
     verdicts = {}
     cur = None
     for l in chk.split('\n'):
@@ -58,6 +73,7 @@ for name, (prop, change, needs) in D.items():
                           'demonstration': demo or 'see notes.md'},
             'what_was_run': ['tools/confirm_mutant <agent worktree> <n>  (apply, cargo test --workspace --offline, demonstration with / without the change)',
                              'tools/try_mutant seeded/%s/patch.diff %s  (scratch copy of /repo + tools/altverif, quick tier)' % (name, ' '.join(verdicts) or prop)],
-            'checks': verdicts, 'source': 'fresh sub-agent given only the property text and a scratch worktree'}
+            'checks': verdicts, 'checks_after_strengthening': after, 'source': 'fresh sub-agent given only the property text and a scratch worktree'}
     json.dump(meta, open(os.path.join(d, 'meta.json'), 'w'), indent=1)
-    print(name, {k: ('caught+input' if v['concrete_input'] else ('caught' if v['rc'] else 'MISSED')) for k, v in verdicts.items()})
+    fmt = lambda vs: {k: ('caught+input' if v['concrete_input'] else ('caught' if v['rc'] else 'MISSED')) for k, v in (vs or {}).items()}
+    print(name, fmt(verdicts), '-> after strengthening:' if after else '', fmt(after) if after else '')
